@@ -279,6 +279,6 @@ def s_case(draw, max_len=5, max_steps=25):
 def parts(tier):
     if tier == 'quick':
         return [Part('subsets', check, enumerate=enum_subsets_quick, exhaustive=False, chunk=30),
-                Part('snapshots', check, strategy=s_case(), examples=40, shards=4)]
+                Part('snapshots', check, strategy=s_case(), examples=80, shards=4)]
     return [Part('subsets', check, enumerate=enum_subsets_all, exhaustive=True, chunk=64),
             Part('snapshots', check, strategy=s_case(8, 80), examples=500, shards=16)]
